@@ -371,6 +371,11 @@ func ruleTreeBounds(c *Ctx, r *R) {
 					if all {
 						if k, ok := kindOf(d, farP); ok {
 							plainIter[k] = true
+							if k != kindVal["boundUnbounded"] {
+								r.violated(base+"|plain-iterator-under-bound", x.Pos(), "the plain "+sp.iter+" iterator is returned although the "+farP.Name()+" bound is not Unbounded: nothing stops it at the bound (keys put beyond the bound while iterating are yielded)")
+							}
+						} else {
+							r.violated(base+"|plain-iterator-outside-kind-test", x.Pos(), "the plain "+sp.iter+" iterator is returned on a path that is not selected by the Unbounded kind of the "+farP.Name()+" bound: a shortcut decided from the tree's contents at creation time does not hold for keys put later, which the iterator must still stop at")
 						}
 					}
 				}
@@ -609,6 +614,21 @@ func isKVWrite(fset *token.FileSet, atom string) (side string) {
 		return "keys"
 	case strings.Contains(target, ".values"):
 		return "values"
+	}
+	// a local that is assigned an entry's key (k := curr.keys[n-1]) has a twin that is assigned the same entry's value, read
+	// from the same node at the same index: the pair travels on (returned, stored into a parent) as one entry
+	if i := strings.Index(st, " = "); i > 0 && !strings.HasPrefix(st, "if ") && !strings.HasPrefix(st, "for ") && !strings.HasPrefix(st, "return") {
+		lhs, rhs := st[:i], st[i+3:]
+		if !strings.ContainsAny(lhs, ".[( ") && strings.HasSuffix(rhs, "]") {
+			if j := strings.Index(rhs, "["); j > 0 && !strings.ContainsAny(rhs[:j], "( ") {
+				switch {
+				case strings.HasSuffix(rhs[:j], ".keys"):
+					return "keys"
+				case strings.HasSuffix(rhs[:j], ".values"):
+					return "values"
+				}
+			}
+		}
 	}
 	return ""
 }
